@@ -158,10 +158,13 @@ func New(startTime time.Time, logLevel slog.Level) *Handler {
 	// Galileo keeps GPS time.
 	startOfGalileoWeek := startOfGPSWeek
 
-	// Set the stored timestamps to match the start time.
-	timestampFromPreviousGPSMessage := (uint(startTime.Sub(startOfGPSWeek).Milliseconds()))
-	timestampFromPreviousGalileoMessage := timestampFromPreviousGPSMessage
-	timestampFromPreviousBeidouMessage := (uint(startTime.Sub(startOfBeidouWeek).Milliseconds()))
+	// Set the stored timestamps to the start of the week.  The start time only
+	// identifies the week - the first message may have been sent earlier in that
+	// week than the start time (for example when displaying a recorded file)
+	// and that must not be taken for a rollover into the next week.
+	var timestampFromPreviousGPSMessage uint = 0
+	var timestampFromPreviousGalileoMessage uint = 0
+	var timestampFromPreviousBeidouMessage uint = 0
 
 	handler := Handler{
 		startOfGPSWeek:                      startOfGPSWeek,
